@@ -452,6 +452,10 @@ def run(ctx):
             p, found_input=bool(p["property_observables_differ"]) or any("changed" in d or "modified" in d for d in p["differs"]))
     # ---- subscriptions overlapping in time on one client object
     c13_deep.concurrent(run, I, ctx.rng, 150 if ctx.thorough else 40)
+    # ---- the GENERATED subscription methods (variables named like the method's locals), run end to end
+    from . import c13_gen
+
+    c13_gen.run(ctx)
     # ---- runtime-only: real websockets server
     from . import c13_real
 
